@@ -92,6 +92,24 @@ func (w *World) errValueConsumed(e, root ssa.Value, opts errOpts, seen map[ssa.V
 			if ok, f := w.errValueConsumed(x, root, opts, seen); ok {
 				return true, f
 			}
+		case *ssa.Store:
+			// named result spilled because a deferred closure captures it:
+			// stored, then loaded by the return
+			if al, ok := x.Addr.(*ssa.Alloc); ok && x.Val == e {
+				for _, r2 := range *al.Referrers() {
+					if ld, ok := r2.(*ssa.UnOp); ok && ld.Op == token.MUL {
+						for _, r3 := range *ld.Referrers() {
+							if ret, ok := r3.(*ssa.Return); ok {
+								for _, res := range ret.Results {
+									if res == ssa.Value(ld) && isErrorType(res.Type()) {
+										return true, "stored to the named error result and returned at " + w.instrPos(ret)
+									}
+								}
+							}
+						}
+					}
+				}
+			}
 		case *ssa.BinOp:
 			if x.Op != token.NEQ && x.Op != token.EQL {
 				continue
